@@ -417,6 +417,8 @@ def replay(prop, path):
         print("  reproduced class=%s but trace differs (%s vs recorded %s): the tree or the simulator changed" % (want, oc.trace, rp.get("trace")))
         return 1
     print("not reproduced: recorded class=%s, now %r" % (want, [v.cls for v in oc.verdicts]))
+    for v in oc.verdicts[:3]:
+        print("  other verdict: class=%s detail=%s" % (v.cls, v.detail[:900]))
     return 0
 
 
